@@ -231,6 +231,7 @@ class Frame:
         self.ret_block = ret_block
         self.block = "bb0"
         self.visits = {}
+        self.ret_wrap = None
 
 
 class State:
@@ -339,6 +340,9 @@ class Executor:
             o = Obj("&str")
             o.tag = ("strlit", s)
             return o
+        nc = self.lookup_named_const(s, st)
+        if nc is not None:
+            return nc
         if re.match(r"^[<A-Za-z_{]", s) and ("::" in s or s.startswith("{")):
             # named constant / promoted / fn item: one opaque object per distinct text
             if re.search(r"::promoted\[\d+\]$", s) or re.match(r"^[\w:<>]+::[A-Z_][A-Z0-9_]*$", s) or "{const" in s:
@@ -348,6 +352,36 @@ class Executor:
                 return self.consts[s]
             return FnItem(s)
         raise Unsupported("constant: " + s[:80])
+
+    def lookup_named_const(self, s, st):
+        table = getattr(self, "named_consts", None)
+        if not table or not re.match(r"^[A-Za-z_][\w:]*$", s):
+            return None
+        last = s.split("::")[-1]
+        if not re.match(r"^[A-Z_][A-Z0-9_]*$", last):
+            return None
+        cands = [k for k in table if k == s or k.endswith("::" + s) or s.endswith("::" + k) or k == last]
+        if not cands:
+            cands = [k for k in table if k.split("::")[-1] == last]
+        if len(cands) != 1:
+            return None
+        kind = table[cands[0]]
+        if kind[0] == "lit":
+            try:
+                return self.const(kind[2], st)
+            except Unsupported:
+                return None
+        body = kind[1]
+        key = "constbody:" + cands[0]
+        if key in self.consts:
+            return copy.deepcopy(self.consts[key])
+        s2 = State()
+        self.push_frame(s2, body, [], None, None)
+        outs = [o for o in self.run(s2) if o.status == "returned"]
+        if len(outs) != 1 or outs[0].pc:
+            return None
+        self.consts[key] = outs[0].result
+        return copy.deepcopy(outs[0].result)
 
     # ---- places --------------------------------------------------------------------------------
     def local_cell(self, frame, local):
@@ -879,6 +913,8 @@ class Executor:
 
     def do_return(self, st, frame, val):
         st.frames.pop()
+        if frame.ret_wrap is not None:
+            val = frame.ret_wrap(self, st, val)
         if not st.frames:
             st.result = val
             st.status = "returned"
@@ -992,6 +1028,18 @@ class Executor:
     def on_drop(self, st, frame, t):
         pass
 
+    def set_dest_and_goto(self, st, t, val):
+        """helper for handlers that fork themselves: store the call result and continue after the call"""
+        f = st.frames[-1]
+        if t.dest is not None:
+            cell, proj = self.resolve(st, f, t.dest)
+            self.write_path(st, cell, proj, val)
+        rb = t.targets.get("return")
+        if rb is None:
+            st.status = "panic"
+            return
+        f.block = rb
+
     # ---- calls ---------------------------------------------------------------------------------
     def find_body(self, func):
         """Resolve a callee path to a MIR body of this crate (exact, generics-insensitive)."""
@@ -1061,6 +1109,11 @@ class Executor:
             return [st]
         if res == "pushed":
             return None
+        if isinstance(res, tuple) and res and res[0] == "states":
+            outs = [x for x in res[1]]
+            if len(outs) == 1 and outs[0] is st and st.status == "running":
+                return None
+            return outs
         out = []
         feas = []
         for val, cond in res:
